@@ -381,6 +381,26 @@ def install(mods):
 
         hier.pickle = PickleProxy()
 
+    # ---- fault injection into one mutator (C04: a failure inside one
+    # mutator costs only that mutator's candidates)
+    if CONFIG.get('break_mutator'):
+        target = CONFIG['break_mutator']
+        where = CONFIG.get('break_where', 'mutations')
+        for group, (mod, reg) in mutators.get_all_mutators().items():
+            if target in reg:
+                cls = getattr(mod, target)
+                for meth in ('filter', 'mutations', 'global_mutations'):
+                    if meth in vars(cls) and (
+                            where == 'all' or where == meth or
+                            (where == 'mutations' and
+                             meth == 'global_mutations')):
+                        def broken(self, *a, _m=meth, **kw):
+                            emit('injected_exception', mutator=target,
+                                 method=_m)
+                            raise RuntimeError(f'injected failure in '
+                                               f'{target}.{_m}')
+                        setattr(cls, meth, broken)
+
     # ---- mutator call counting (C14)
     if 'mut' in mon:
         for group, (mod, reg) in mutators.get_all_mutators().items():
